@@ -26,6 +26,12 @@ CHECKS = {
  "C07": dict(cat="model_checking", ref="DESIGN.md 4 C07", tech="TLA+ geometry (ray walking) enumerated exhaustively by TLC and replayed against the engine's tables; index trace (hook H2) validated by TLC",
    text="Exhaustive in both tiers: TLC enumerates every subset of every relevant blocker mask for both slider kinds (107,648 cases) with the attack set obtained by ray walking, all leaper/pawn tables and all 4,096 between pairs; the harness compares each with the real tables, also under 8 occupancies per case that differ only in irrelevant bits, and logs the table index of the lookups (hook), which TLC checks to lie inside the table.",
    note="exhaustive: true for the slider/leaper/between spaces; perturbations are random samples of the irrelevant bits plus the two extremes.", engine="tla-game"),
+ "C18": dict(cat="model_checking", ref="DESIGN.md 4 C18", tech="TLA+ SAN definition (San.tla) evaluated by TLC on recorded writer/reader calls; TLC-generated ambiguity families",
+   text="San.tla defines the standard text of a legal move (minimal disambiguation, capture, promotion, castling, check suffix with + and # equivalent on mate). For every move of every distinct position (TLC-generated families of 2-3 like pieces reaching one square, pawn captures beside other capturers, promotions, checking castles, both colours; plus walk positions) TLC checks the engine's text, that the texts of a position are pairwise different, and that the reader returns the same move without panicking.",
+   note="Moves absent from the engine's move list are C01's business and are skipped here."),
+ "C20": dict(cat="model_checking", ref="DESIGN.md 4 C20", tech="TLA+ swap-list exchange evaluation (See.tla, set-valued on ties) evaluated by TLC on recorded verdicts; TLC-generated exchange constellations; mirror validated against Chess!Mirror",
+   text="See.tla computes the set of possible swap-list verdicts (ties between equally valued least attackers are non-deterministic, x-rays arise from geometry). For every non-en-passant capture of generated constellations (batteries, capturing promotions) and walk positions TLC checks colour symmetry (on a mirror it validates itself), the undefended and captured>=capturer clauses, and membership of the engine's verdict in the set.",
+   note="Abstractions shared with the engine are stated in See.tla (pins ignored, no promotion during the exchange)."),
 }
 
 def main():
